@@ -89,7 +89,14 @@ def spaces(repo=None):
     pats["D_PROP"] = r"[^\n]*/[^/\n]+$"
     pats["TMPFILE"] = r"[^\n]*/tmp\.[^/\n]*$"
     sp = rx.Space(pats, texts=["tmp.rf@drf_properties.h5metadata_dmd/\n0123456789-T"])
-    sp.langs["D_FILE"] = sp.langs["D_FILE0"] - sp.langs["D_TWOSUB"]
+    # the domain is every path whose last two components are <sub-directory>/<file name>; an *ancestor* that also looks like a
+    # sub-directory (a top directory named by an experiment start time) is inside the domain: a first version excluded such paths
+    # as "not the format's depth" and thereby hid that the `name` group could span separators, so that
+    # <SUBDIR>/x/<SUBDIR>/tmp.rf@0.000.h5 passed the filter with name = 'x/<SUBDIR>/tmp.rf'
+    sp.langs["D_FILE"] = sp.langs["D_FILE0"]
+    # the listing applies the file regex to a name returned by os.listdir, i.e. to ONE path component
+    for k in ("_RE_FILE", "_RE_DRFFILE", "_RE_DMDFILE"):
+        sp.langs["LIST" + k] = sp.langs["LIST" + k] & sp.langs["D_FILE0"]
     return sp, pats
 
 
@@ -118,7 +125,7 @@ def r2_tables_agree(repo=None):
         if ok:
             r.ok("list_drf.%s vs <dir>/%s%s" % (wname, "" if wname.endswith("PROP") else "<SUBDIR>/", lname),
                  "equal languages on the domain (file %s, no newline)" % (
-                     "directly in a directory" if wname.endswith("PROP") else "at the format's depth, no other sub-directory-like component"))
+                     "directly in a directory" if wname.endswith("PROP") else "at the format's depth"))
         else:
             w = a1 if a1 is not None else b1
             side = "accepted by the event filter but never listed" if a1 is not None else "listed but rejected by the event filter"
